@@ -6,6 +6,10 @@ from .ctx import *
 from .ctx import kinds_only
 
 
+SWEEP_N = 640
+SWEEP_N_THOROUGH = 1100
+
+
 def block_case(rng, mode, n_ops, with_state=True, oneshot=False, padded=False, dcalls=False):
     bs, w = pick_matrix(rng, mode)
     mbs = mode_bs(mode, bs)
@@ -62,6 +66,7 @@ def run_C02(ctx):
             cases.append(block_case(ctx.rng, mode, ctx.rng.randrange(1, 7), padded=True))
         for _ in range(ctx.n(2, 12)):
             cases.append(long_block_case(ctx.rng, mode, ctx.thorough))
+        cases += sweep_cases(ctx.rng, "block", mode, SWEEP_N_THOROUGH if ctx.thorough else SWEEP_N)
     res = ctx.run(cases)
     ctx.check_absolute_shrunk(cases, res)
 
@@ -97,7 +102,9 @@ def run_C03(ctx):
                                     dcalls=ctx.rng.random() < 0.5))
         for _ in range(ctx.n(2, 12)):
             cases.append(long_block_case(ctx.rng, mode, ctx.thorough))
+        cases += sweep_cases(ctx.rng, "block", mode, SWEEP_N_THOROUGH if ctx.thorough else SWEEP_N)
     for mode in ["cfbbuf-enc", "cfbbuf-dec"]:
+        cases += sweep_cases(ctx.rng, "buf", mode, SWEEP_N_THOROUGH if ctx.thorough else SWEEP_N)
         for _ in range(ctx.n(80, 1500)):
             c = buf_case(ctx.rng, mode)
             if ctx.rng.random() < 0.5:
@@ -109,6 +116,8 @@ def run_C03(ctx):
         cases.append(stream_case(ctx.rng, "ofb", seeks=False))
     for _ in range(ctx.n(2, 12)):
         cases.append(long_stream_case(ctx.rng, "ofb", ctx.thorough))
+    cases += sweep_cases(ctx.rng, "stream", "ofb", SWEEP_N)
+    cases += sweep_cases(ctx.rng, "core", "ofb", SWEEP_N)
     res = ctx.run(cases)
     ctx.check_absolute_shrunk(cases, res)
 
@@ -175,6 +184,7 @@ def core_case(rng, mode, n_ops=None):
 
 def run_C04(ctx):
     cases = []
+    sweep_streams = ctx.rng.sample(list(CTR_FLAVORS), 2)
     for mode in CTR_FLAVORS:
         for _ in range(ctx.n(60, 1200)):
             cases.append(core_case(ctx.rng, mode))
@@ -183,6 +193,9 @@ def run_C04(ctx):
         for _ in range(ctx.n(1, 8)):
             cases.append(long_stream_case(ctx.rng, mode, ctx.thorough))
             cases.append(long_core_case(ctx.rng, mode, ctx.thorough))
+        cases += sweep_cases(ctx.rng, "core", mode, SWEEP_N)
+        if ctx.thorough or mode in sweep_streams:
+            cases += sweep_cases(ctx.rng, "stream", mode, SWEEP_N)
         # block index crossing the counter wrap deep in the stream (positioned, no data generated for the gap)
         w_bits = CTR_FLAVORS[mode][0]
         for _ in range(ctx.n(15, 200)):
@@ -230,6 +243,7 @@ def run_C05(ctx):
             op = ctx.rng.choice(["enc", "dec", "encb", "decb"])
             c.ops.append(f"{op} {hx(rb(ctx.rng, L))}" + (f" {hx(rb_nz(ctx.rng, L))}" if op.endswith("b") else ""))
             cases.append(c)
+        cases += sweep_cases(ctx.rng, "cts", mode, SWEEP_N)
     res = ctx.run(cases)
 
     def sig(c, i, hi, si):
@@ -252,6 +266,8 @@ def run_C06(ctx):
     for _ in range(ctx.n(3, 16)):
         cases.append(long_stream_case(ctx.rng, "belt", ctx.thorough))
         cases.append(long_core_case(ctx.rng, "belt", ctx.thorough))
+    cases += sweep_cases(ctx.rng, "core", "belt", SWEEP_N // 2)
+    cases += sweep_cases(ctx.rng, "stream", "belt", SWEEP_N // 2)
     res = ctx.run(cases)
     ctx.check_absolute_shrunk(cases, res)
 
